@@ -672,7 +672,7 @@ func (a *agg) evaluate(f *lib.Flags, d *driver, j job, h *History, v *Verdict, o
 		switch {
 		case !allParse:
 			why = "a text does not pass the generic parser"
-		case j.amp || hasOp(ops, "amplifier"):
+		case j.amp || hasOp(ops, "amplifier") || h.NoModel:
 			// the compiled model mirrors the loops of the Go code on lists; the amplifiers are about the
 			// resources the Go side takes
 			why = "amplifier case (the model is not asked)"
@@ -883,7 +883,7 @@ func replay(f *lib.Flags, emptyDir string) int {
 		fmt.Println("NOT AS EXPECTED: expected", expectText(&h))
 		return 1
 	}
-	if v.Rep.Wire == "" || f.Driver == "" {
+	if v.Rep.Wire == "" || f.Driver == "" || h.NoModel {
 		fmt.Println("survival-only history (outside the modelled domain)")
 		return 0
 	}
